@@ -338,6 +338,75 @@ class _HandlerFailed(Exception):
     pass
 
 
+def run_asyncore_dispatcher(case):
+    """the default (asyncore) dispatcher under the network layer, its loop events driven by the case: a layer above fails while it
+    handles something that was read.  A connection announced as down is down: its socket is closed and nothing it still had
+    pending reaches the stack, least of all after the next connection is up; the next connection works"""
+    import yowsup.layers.network.layer as netmod
+    from yowsup.layers.network.layer import YowNetworkLayer
+    from ..kit import netkit, stackkit
+    out = Outcome()
+    out.info = {"nt": True}
+    excs = {"ValueError": ValueError("undecodable"), "KeyError": KeyError("handler"), "handler": _HandlerFailed("unsupported stanza"),
+            "AttributeError": AttributeError("callback"), "OSError": OSError(5, "from a layer above")}
+    out.label("asyncore_dispatcher", "upper_fails:" + case["how"])
+    saved = (netmod.AsyncoreConnectionDispatcher, netmod.SocketConnectionDispatcher)
+    Driven, DA = netkit.driven_asyncore_class()
+    saved_asyncore = DA.asyncore
+    DA.asyncore = netkit.AsyncoreShim(DA.asyncore)
+    netmod.AsyncoreConnectionDispatcher = Driven
+    Driven.made = []
+    try:
+        stack = stackkit.new_stack_class()((YowNetworkLayer, _FailingTop), reversed=False,
+                                           props={YowNetworkLayer.PROP_ENDPOINT: ("e1.whatsapp.net", 443)})
+        net, top = stack.getLayer(0), stack.getLayer(1)
+        top.fail_on = {b"c0-r%d" % case["fail_at"]: excs[case["how"]]}
+        stack.broadcastEvent(YowLayerEvent(YowNetworkLayer.EVENT_STATE_CONNECT))
+        d0 = Driven.made[-1]
+        d0.h_establish()
+        stackkit.drain_detached(stack)
+        for r in range(case["fail_at"] + 1):
+            d0.h_data_as_the_loop_does(b"c0-r%d" % r)
+        stackkit.drain_detached(stack)
+        downs = top.events.count(YowNetworkLayer.EVENT_STATE_DISCONNECTED)
+        if net.state == YowNetworkLayer.STATE_DISCONNECTED or downs:
+            out.label("connection_given_up_after_the_failure")
+            if d0.state != "closed":
+                out.fail("wedged", "asyncore_dispatcher:connection_announced_down_but_its_socket_is_open", {"how": case["how"], "socket": d0.state})
+                return out
+        else:
+            out.label("connection_kept_after_the_failure")
+        # whatever the old connection still had to say arrives late, around the next connection's establishment
+        n_got = len(top.got)
+        if case.get("late") == "before_reconnect" and d0.state != "closed":
+            d0.h_data_as_the_loop_does(b"late-frame")
+        if net.state == YowNetworkLayer.STATE_DISCONNECTED:
+            stack.broadcastEvent(YowLayerEvent(YowNetworkLayer.EVENT_STATE_CONNECT))
+            if len(Driven.made) != 2:
+                out.fail("wedged", "asyncore_dispatcher:connect_request_opens_no_connection", {"layer_state": net.state})
+                return out
+            d1 = Driven.made[-1]
+            d1.h_establish()
+            stackkit.drain_detached(stack)
+            if case.get("late") == "after_reconnect" and d0.state != "closed":
+                d0.h_data_as_the_loop_does(b"late-frame")
+            d1.h_data_as_the_loop_does(b"c1-r0")
+            stackkit.drain_detached(stack)
+            new = top.got[n_got:]
+            if new != [b"c1-r0"]:
+                out.fail("wedged", "asyncore_dispatcher:after_reconnect_the_stack_received_%s" % ("nothing" if not new else "data_of_the_dead_connection"),
+                         {"received": [bytes(x)[:20].decode("latin-1") for x in new]})
+                return out
+            top.toLower(b"out-1")
+            if bytes(d1._sock.wire) != b"out-1":
+                out.fail("wedged", "asyncore_dispatcher:send_after_reconnect_not_on_the_new_socket", {"wire": bytes(d1._sock.wire)[:20].hex()})
+                return out
+    finally:
+        netmod.AsyncoreConnectionDispatcher, netmod.SocketConnectionDispatcher = saved
+        DA.asyncore = saved_asyncore
+    return out
+
+
 def run_socket_dispatcher(case):
     """the blocking socket dispatcher (PROP_DISPATCHER = DISPATCHER_SOCKET) under the network layer, over scripted sockets: a
     layer above fails while it handles something that was read.  Whatever the dispatcher does about it (carry on, or give the
@@ -486,6 +555,8 @@ def run_case(case):
         return run_session_not_ready(case)
     if case.get("sub") == "socket_dispatcher":
         return run_socket_dispatcher(case)
+    if case.get("sub") == "asyncore_dispatcher":
+        return run_asyncore_dispatcher(case)
     if case.get("sub") == "login_race":
         return run_login_race(case)
     if case.get("sub") == "key_fetch_fault":
@@ -856,7 +927,7 @@ def shrink_candidates(case):
     if case.get("choices"):
         yield dict(case, choices=[])
         yield dict(case, choices=case["choices"][:len(case["choices"]) // 2])
-    if case.get("sub") in ("key_fetch_fault", "session_not_ready"):
+    if case.get("sub") in ("key_fetch_fault", "session_not_ready", "asyncore_dispatcher"):
         return
     if case.get("sub") == "socket_dispatcher":
         conns = case["connections"]
@@ -1007,6 +1078,9 @@ def plan(tier):
         "shards": 16,
         "enumerations": [("every_site", _enum_sites), ("login_race_basic", _enum_login_race), ("key_fetch_fault_basic", _enum_key_fetch_fault),
                          ("profile_write_fault_sweep", _enum_profile_write_fault),
+                         ("asyncore_dispatcher", lambda: iter([{"sub": "asyncore_dispatcher", "how": h, "fail_at": k, "late": late}
+                                                               for h in ("ValueError", "KeyError", "handler", "AttributeError", "OSError")
+                                                               for k in (0, 2) for late in (None, "before_reconnect", "after_reconnect")])),
                          ("session_not_ready", lambda: iter([{"sub": "session_not_ready", "when": w, "to": t, "content": c, "n": n}
                                                              for w in ("never_connected", "after_disconnect") for t in ("direct", "group")
                                                              for c in ("text", "media") for n in (1, 2)])),
@@ -1023,3 +1097,4 @@ def plan(tier):
 
 RULE += (' Also: the real socket dispatcher over scripted sockets (a layer above failing on chosen reads, a disconnect request for a connection that is already gone, reconnects); the profile write failing at the moment the session is established (eager server, complete single-preemption sweep); the application failing on the <success> stanza (the login must still be announced to the layers below).')
 RULE += (" Session not ready in the encryption layers: a text / media message to a contact / a group handed down before the first connection or after the connection went down must raise to the caller (or go out), and sending works after the next connection.")
+RULE += (" The asyncore dispatcher (its loop events driven by the case, a handler's exception going to handle_error as in asyncore.read): a layer above fails on a read; a connection announced as down has its socket closed, and data of the dead connection never reaches the stack around the next connection.")
